@@ -99,7 +99,7 @@ def check_one(rep: common.Report, label: str, tp: Any, expected: Dict[bool, set]
 
 CLASH_SRC = '''
 from dataclasses import dataclass
-from typing import List, NamedTuple, NewType, Optional, Union
+from typing import Annotated, Generic, List, NamedTuple, NewType, Optional, TypeVar, Union
 from apischema import deserializer, serializer, type_name
 
 @type_name("Same")
@@ -148,6 +148,38 @@ class LegacyFoo:
 
 def to_legacy(foo: Foo) -> LegacyFoo:
     return LegacyFoo(foo.a)
+
+IdA = Annotated[int, type_name("Id")]
+IdB = Annotated[str, type_name("Id")]
+
+
+@dataclass
+class HolderIds:
+    a: IdA
+    b: IdB
+    c: List[IdA]
+
+
+T = TypeVar("T")
+
+
+@type_name(lambda cls, *args: cls.__name__)
+@dataclass
+class Page(Generic[T]):
+    item: T
+
+
+@dataclass
+class HolderPages:
+    ints: Page[int]
+    strs: Page[str]
+
+
+@dataclass
+class HolderSamePages:
+    one: Page[int]
+    two: List[Page[int]]
+
 
 class Quantity:
     def __init__(self, v):
@@ -275,14 +307,26 @@ def naming_cases(rep: common.Report) -> int:
                               f"definitions_schema = {sorted(dgot)}, expected {sorted(want)} (a dynamic conversion is local: it does not reach "
                               "the fields of the NamedTuple)", {})
     for fn in (deserialization_schema, serialization_schema):
+        # two distinct types under one name are refused: unrelated classes, two Annotated aliases over different
+        # types, two parametrisations of one generic class
+        for holder, what in ((mod.Holder, "classes A and B named 'Same'"), (mod.HolderIds, "Annotated[int] and Annotated[str] named 'Id'"),
+                             (mod.HolderPages, "Page[int] and Page[str] named 'Page'")):
+            n += 1
+            try:
+                res = fn(holder)
+                rep.violation(f"{fn.__name__}: two distinct types sharing a name ({what}) were merged instead of refused", {"schema": res})
+            except ValueError:
+                pass
+            except Exception as exc:
+                rep.violation(f"{fn.__name__}: name clash ({what}) raised {type(exc).__name__} instead of a refusal (ValueError)", {})
+        # ... while the SAME parametrisation used twice is one definition
         n += 1
         try:
-            res = fn(mod.Holder)
-            rep.violation("two distinct types sharing the name 'Same' were merged instead of refused", {"schema": res})
-        except ValueError:
-            pass
+            got = set(fn(mod.HolderSamePages).get("$defs", {}))
+            if got != {"Page"}:
+                rep.violation(f"{fn.__name__}(HolderSamePages): $defs = {sorted(got)}, expected ['Page']", {})
         except Exception as exc:
-            rep.violation(f"name clash raised {type(exc).__name__} instead of a refusal (ValueError)", {})
+            rep.violation(f"{fn.__name__}(HolderSamePages) raised {type(exc).__name__}: {exc}", {})
         for tp, want in ((mod.UsesAnon, set()), (mod.UsesOrig, {"Renamed"}), (mod.UsesFactory, {"Fac_ByFactory"})):
             n += 1
             got = set(fn(tp).get("$defs", {}))
